@@ -71,10 +71,33 @@ func checkManifest(files zipFiles, sig *AppxSignature) error {
 	sig.DisplayName = manifest.DisplayName
 	sig.Version = manifest.Identity.Version
 	publisher := x509tools.FormatPkixName(sig.Signature.Certificate.RawSubject, x509tools.NameStyleMsOsco)
-	if manifest.Identity.Publisher != publisher {
-		return fmt.Errorf("appx manifest: publisher identity mismatch:\nexpected: %s\nactual: %s", publisher, manifest.Identity.Publisher)
+	actual, err := publisherAttr(blob, "Package/Identity")
+	if err != nil {
+		return fmt.Errorf("appx manifest: %w", err)
+	}
+	if actual != publisher {
+		return fmt.Errorf("appx manifest: publisher identity mismatch:\nexpected: %s\nactual: %s", publisher, actual)
 	}
 	return nil
+}
+
+// publisherAttr returns the attribute SetPublisher writes: the unprefixed
+// Publisher attribute of the element at path ("" if there is none).
+// encoding/xml would let any attribute with the local name Publisher,
+// whatever its prefix, and any later Identity element override it.
+func publisherAttr(blob []byte, path string) (string, error) {
+	doc := etree.NewDocument()
+	if err := doc.ReadFromBytes(blob); err != nil {
+		return "", err
+	}
+	if el := doc.FindElement(path); el != nil {
+		for _, a := range el.Attr {
+			if a.Space == "" && a.Key == "Publisher" {
+				return a.Value, nil
+			}
+		}
+	}
+	return "", nil
 }
 
 func (m *appxPackage) SetPublisher(cert *x509.Certificate) {
